@@ -22,6 +22,7 @@ const (
 type linState struct {
 	V   [maxSlots]int64
 	E   [maxSlots]int64 // cache: expiration instant (0 = never)
+	EH  [maxSlots]int64 // timed phases only: the instant lies in [E, EH] (the storing call read the clock somewhere in its window)
 	Pre bool            // the prefill block is present (only Clear changes it)
 }
 
@@ -43,6 +44,10 @@ type linInput struct {
 	Cache bool
 	Now   int64
 	Def   int64
+	// Timed: the clock ticks inside this phase; the call read it somewhere in
+	// [Now, NowHi] (its values at invocation and at return)
+	Timed bool
+	NowHi int64
 	// Wild: the operation never returned; its output is unknown
 	Wild bool
 	// PreN: how many prefill keys (prefillBase..) the set-up left present;
@@ -133,6 +138,9 @@ func linStep(st linState, in linInput, out linOutput) (bool, linState) {
 			}
 			return in.Wild || (!out.Ok && out.Val == 0), st
 		}
+	}
+	if in.Timed && in.Cache && i >= 0 {
+		return linStepTimed(st, in, out)
 	}
 	w := in.Wild
 	zeroOld := func() int64 {
@@ -289,7 +297,7 @@ func linStep(st linState, in linInput, out linOutput) (bool, linState) {
 		return true, st
 	case CClear:
 		for j := range st.V {
-			st.V[j], st.E[j] = absent, 0
+			st.V[j], st.E[j], st.EH[j] = absent, 0, 0
 		}
 		st.Pre = false
 		return true, st
@@ -302,6 +310,129 @@ func linStep(st linState, in linInput, out linOutput) (bool, linState) {
 		return true, st
 	}
 	panic(fmt.Sprintf("model: unexpected cache op %v", op))
+}
+
+// linStepTimed is the specification of keyed cache calls while the clock
+// ticks inside the phase. A call reads the clock at unknown points of its
+// window [Now, NowHi]; an entry stored by a call expires at an instant in
+// [Now+d, NowHi+d]. The result tells which way the call saw the entry (live or
+// not); that must have been possible, and it narrows the state: an entry seen
+// expired is gone for every later call (the clock does not run backwards), one
+// seen live did not expire before the call began.
+func linStepTimed(st linState, in linInput, out linOutput) (bool, linState) {
+	op, i := in.Op, in.Slot
+	lo, hi, def := in.Now, in.NowHi, in.Def
+	if hi < lo {
+		hi = lo
+	}
+	cur := st.V[i]
+	present := cur != absent
+	never := present && st.E[i] == 0
+	canLive := present && (never || lo <= st.EH[i])
+	canDead := !present || (!never && hi > st.E[i])
+	store := func(v, d int64) {
+		st.V[i], st.E[i], st.EH[i] = v, expiryOf(d, def, lo), expiryOf(d, def, hi)
+	}
+	kill := func() { st.V[i], st.E[i], st.EH[i] = absent, 0, 0 }
+	sawLive := func() {
+		if !never && lo > st.E[i] {
+			st.E[i] = lo
+		}
+	}
+	if in.Pseudo {
+		ok := canLive && cur == out.Val
+		sawLive()
+		return ok, st
+	}
+	switch op.K {
+	case CSet:
+		store(op.Val, op.D)
+		return true, st
+	case CSetDefault:
+		store(op.Val, sentinelDefault)
+		return true, st
+	case CSetForever:
+		st.V[i], st.E[i], st.EH[i] = op.Val, 0, 0
+		return true, st
+	case CGet, CGetWithExpiration, CGetWithTTL:
+		if !out.Ok {
+			kill()
+			return canDead && out.Val == 0, st
+		}
+		ok := canLive && out.Val == cur
+		if ok {
+			switch {
+			case op.K == CGetWithExpiration && never:
+				ok = out.Exp == 0
+			case op.K == CGetWithExpiration:
+				ok = out.Exp >= st.E[i] && out.Exp <= st.EH[i] && out.Exp >= lo
+				st.E[i], st.EH[i] = out.Exp, out.Exp
+			case op.K == CGetWithTTL && never:
+				ok = out.TTL == sentinelNoExp
+			case op.K == CGetWithTTL:
+				// expiry minus a second clock reading
+				ok = out.TTL >= st.E[i]-hi && out.TTL <= st.EH[i]-lo
+			}
+		}
+		sawLive()
+		return ok, st
+	case CGetOrSet, CGetOrCompute:
+		if out.Ok {
+			sawLive()
+			return canLive && out.Val == cur, st
+		}
+		store(op.Val, op.D)
+		return canDead && out.Val == op.Val, st
+	case CGetAndSet:
+		ok := false
+		if out.Ok {
+			ok = canLive && out.Val == cur
+		} else {
+			ok = canDead && out.Val == op.Val
+		}
+		store(op.Val, op.D)
+		return ok, st
+	case CGetAndRefresh:
+		if out.Ok {
+			ok := canLive && out.Val == cur
+			st.E[i], st.EH[i] = expiryOf(op.D, def, lo), expiryOf(op.D, def, hi)
+			return ok, st
+		}
+		kill()
+		return canDead && out.Val == 0, st
+	case CCompute:
+		if out.FnCalls < 1 {
+			return false, st
+		}
+		ok := false
+		old := int64(0)
+		if out.FnLoaded {
+			ok = canLive && out.FnOld == cur
+			old = cur
+		} else {
+			ok = canDead && out.FnOld == 0
+		}
+		nv, del := fnResult(op, old, out.FnLoaded)
+		if del {
+			kill()
+			return ok && !out.Ok, st
+		}
+		store(nv, op.D)
+		return ok && out.Ok && out.Val == nv, st
+	case CGetAndDelete:
+		ok := false
+		if out.Ok {
+			ok = canLive && out.Val == cur
+		} else {
+			ok = canDead && out.Val == 0
+		}
+		kill()
+		return ok, st
+	case CDelete:
+		kill()
+		return true, st
+	}
+	panic(fmt.Sprintf("model: unexpected timed cache op %v", op))
 }
 
 // computeObs: what the Compute function observed must be the state at the
@@ -351,7 +482,8 @@ type linResult struct {
 // checkLin checks the records of one phase (plus pseudo-loads from Range
 // visits) against the model. Records that never returned (pending) may or may
 // not have taken effect: both histories are tried.
-func checkLin(recs []*Rec, init linState, slots map[int]int, cacheFam bool, now, def int64, maxSeq uint64, timeout time.Duration, preN int) linResult {
+func checkLin(recs []*Rec, init linState, slots map[int]int, cacheFam bool, now, def int64, maxSeq uint64, timeout time.Duration, preN int, timed ...bool) linResult {
+	tm := len(timed) > 0 && timed[0] && cacheFam
 	var base []porcupine.Operation
 	var pend []porcupine.Operation
 	client := 0
@@ -397,14 +529,14 @@ func checkLin(recs []*Rec, init linState, slots map[int]int, cacheFam bool, now,
 				}
 				base = append(base, porcupine.Operation{
 					ClientId: client, Call: int64(r.Call), Return: ret,
-					Input:  linInput{Op: Op{K: MLoad, Key: kv.K}, Slot: s, Pseudo: true, Cache: cacheFam, Now: now, Def: def},
+					Input:  timedIn(linInput{Op: Op{K: MLoad, Key: kv.K}, Slot: s, Pseudo: true, Cache: cacheFam, Now: now, Def: def}, r, tm),
 					Output: linOutput{Val: kv.V, Ok: true},
 				})
 				client++
 			}
 			continue
 		}
-		in := linInput{Op: r.Op, Slot: slot, Cache: cacheFam, Now: now, Def: def, PreN: preN}
+		in := timedIn(linInput{Op: r.Op, Slot: slot, Cache: cacheFam, Now: now, Def: def, PreN: preN}, r, tm)
 		out := linOutput{Val: r.Val, Ok: r.Ok, Exp: r.Exp, TTL: r.TTL, N: r.N, FnCalls: r.FnCalls, FnOld: r.FnOld, FnLoaded: r.FnLoaded}
 		if r.Pending {
 			in.Wild = true
@@ -412,6 +544,9 @@ func checkLin(recs []*Rec, init linState, slots map[int]int, cacheFam bool, now,
 			continue
 		}
 		base = append(base, porcupine.Operation{ClientId: cid, Call: int64(r.Call), Return: int64(r.Ret), Input: in, Output: out})
+	}
+	if tm && len(pend) > 0 {
+		return linResult{Skipped: "pending operations in a phase with a ticking clock"}
 	}
 	if len(pend) > 4 {
 		return linResult{Skipped: "too many pending operations"}
@@ -444,4 +579,11 @@ func checkLin(recs []*Rec, init linState, slots map[int]int, cacheFam bool, now,
 		res.Result = porcupine.Illegal
 	}
 	return res
+}
+
+func timedIn(in linInput, r *Rec, timed bool) linInput {
+	if timed {
+		in.Timed, in.Now, in.NowHi = true, r.Now, r.NowRet
+	}
+	return in
 }
